@@ -416,6 +416,12 @@ class SimulationAlgorithm3DBase
         return t;
         }
 
+    bool IsComplete()
+    // tells if the simulation have been flagged as complete.
+        {
+        return complete;
+        }
+
     std::vector<double> & GetSampledT()
         {
         return sampled_t;
